@@ -166,6 +166,8 @@ IDIOMS = [
     ('R2.closure_tuple_param', r'\|\((\w+), (\w+)\)\| (\w+\.checked_sub\(\w+\))', r'|p__| { let (\1, \2) = p__; \3 }'),
     # R6: `x.clone_from(&y)` (an allocation-reusing spelling of `x = y.clone()`, which is its documented meaning) is not supported by Verus
     ('R6.clone_from', r'\b([A-Za-z_][A-Za-z0-9_]*(?:\.[A-Za-z_][A-Za-z0-9_]*)*)\.clone_from\(&([A-Za-z_][A-Za-z0-9_]*(?:\.[A-Za-z_][A-Za-z0-9_]*)*)\);', r'\1 = \2.clone();'),
+    # R2: a tuple pattern in parameter position -> named parameter + let
+    ('R2.tuple_param', r'fn (\w+)\(\((\w+), (\w+)\): \(([A-Za-z_][A-Za-z0-9_]*), ([A-Za-z_][A-Za-z0-9_]*)\)\) -> Self \{', r'fn \1(p__: (\4, \5)) -> Self { let (\2, \3) = p__;'),
     # R3 debug_assert_eq / _ne  (message dropped)
     ('R3.debug_assert_eq_carry', r'debug_assert_eq!\(carry, &0\);', r'debug_assert!(*carry == 0);'),
     ('R3.debug_assert_eq', r'debug_assert_eq!\(([^,;]+), ([^,;]+)\);', r'debug_assert!(\1 == \2);'),
